@@ -13,6 +13,8 @@ fn main() {
         "witness-v1" => v1::witness(args.get(2).and_then(|s| s.parse().ok()).unwrap_or(4)),
         "replay-v1" => v1::replay(&args[2]),
         "witness-k3" => k3::witness(),
+        "fidelity-v5" => k3::fidelity(),
+        "fidelity-v6" => k3::fidelity_printer(),
         "replay-k3" => k3::replay(&args[2]),
         "witness-k7" => k7::witness(),
         "witness-k8" => k8::witness(),
